@@ -73,7 +73,7 @@ def _run_one(args):
         rep, undecided = run_property(prop, tmp, 'quick')
         viol = [o for o in rep.obs if not o.ok]
         rules = sorted({o.rule for o in viol})
-        if undecided is not None:
+        if undecided is not None and not (v.kind == 'B' and viol):
             return dict(name=v.name, kind=v.kind, status='undecided', detail=undecided, rules=rules)
         if v.kind == 'B':
             if not viol:
